@@ -2247,7 +2247,8 @@ impl NullableInterval {
             Self::Null { datatype } => {
                 Some(ScalarValue::try_from(datatype).unwrap_or(ScalarValue::Null))
             }
-            Self::MaybeNull { values } | Self::NotNull { values }
+            // `MaybeNull { [v, v] }` is the set {NULL, v}: not a single value
+            Self::NotNull { values }
                 if values.lower == values.upper && !values.lower.is_null() =>
             {
                 Some(values.lower.clone())
